@@ -40,9 +40,11 @@ class Report:
         self.not_decided: List[str] = []
         self.extra: Dict[str, Any] = {}
         self.notes: List[str] = []
+        self.rule_prefix = ""
 
     # -- declaring ----------------------------------------------------
     def rule(self, rule_id: str, description: str, minimum: int = 1) -> str:
+        rule_id = self.rule_prefix + rule_id
         self.rules[rule_id] = description
         self.minimum[rule_id] = minimum
         return rule_id
